@@ -41,6 +41,12 @@ pub struct NewCase {
     /// (engine E3) instead of the shuttle executor; `e2` carries the scheduler parameters
     #[serde(default)]
     pub e3: bool,
+    /// Generation without a prefix only: run the scenario a second time with the first planned
+    /// response replaced by this one and require that whether the command succeeds, and where in
+    /// the delivered byte stream the printed entropy lies, do not depend on the VALUES the source
+    /// delivered (a conditional redraw makes some phrases impossible: not every bit is the source's).
+    #[serde(default)]
+    pub twin_first: Option<EntResp>,
 }
 
 // ---------------------------------------------------------------------------
@@ -1075,6 +1081,50 @@ impl NewCase {
             }
         }
 
+        // ---- C12: which delivered bytes are used must not depend on their values --------
+        if let (Some(tw), true, true) = (&self.twin_first, self.prefix.is_none() && !self.entropy.is_empty(), rep.fault_free) {
+            let mut c = self.clone();
+            c.twin_first = None;
+            c.entropy[0] = tw.clone();
+            let cmd2 = c.cmd(false);
+            let o2 = exec(ctx, dir, &cmd2)?;
+            eh.write_u64(o2.event_hash());
+            rep.procs += 1;
+            // offset of the printed entropy in the stream of all successfully delivered bytes
+            let position = |o: &Outcome| -> Option<usize> {
+                if !o.status.ok() {
+                    return None;
+                }
+                let e = rm::bip39_decode(o.stdout_str().trim_end_matches('\n')).ok()?;
+                let stream: String = o.ent.iter().filter(|ev| ev.ok).map(|ev| ev.bytes.as_str()).collect();
+                let he = hex::encode(e);
+                let mut from = 0;
+                while let Some(i) = stream[from..].find(&he) {
+                    if (from + i) % 2 == 0 {
+                        return Some((from + i) / 2);
+                    }
+                    from += i + 1;
+                }
+                None
+            };
+            let (p1, p2) = (position(&o), position(&o2));
+            rep.probe("twin_generation_compared", true);
+            hist.push(json!({"engine": engine, "twin_first": format!("{tw:?}"), "status": format!("{:?}", o2.status), "stdout": o2.stdout_str(),
+                "printed_entropy_stream_offset": [p1, p2]}));
+            let crashed2 = matches!(o2.status, Status::Exit(101) | Status::Signal(_) | Status::Timeout);
+            if (o.status.ok() != o2.status.ok() || (o.status.ok() && p1.is_some() && p2.is_some() && p1 != p2)) && !crashed2 {
+                rep.violate(
+                    "C12",
+                    "entropy-selection-depends-on-value",
+                    "new|twin",
+                    format!(
+                        "[{engine}] `{}`: with first response {:?} -> status {:?}, printed entropy at stream offset {:?} ({} requests); with first response {:?} and everything else equal -> status {:?}, offset {:?} ({} requests): which delivered bytes end up in the phrase depends on their values",
+                        cmd.argv.join(" "), self.entropy[0], o.status, p1, o.ent.len(), tw, o2.status, p2, o2.ent.len()
+                    ),
+                );
+            }
+        }
+
         // ---- E2 stubs main.rs: cross-validate single-searcher runs on the real binary -----
         let e2_exited = o.e2.as_ref().map(|h| h.end == "exit").unwrap_or(false);
         if self.cross_e1
@@ -1641,6 +1691,7 @@ pub fn gen_vanity(rng: &mut Rng, spec: &VanitySpec) -> NewCase {
         reparse: true,
         cross_e1: false,
         e3: false,
+        twin_first: None,
     };
     if spec.engine_e2 {
         c.e2 = Some(e2_params(rng, spec.workers, c.entropy.len()));
